@@ -161,7 +161,9 @@ Records::Records(
 		mAction=WRITE;
 	}
 
-    make_scan_formats(mScanFormats,true);
+    // the delimiter is not part of the scan formats: it is consumed
+    // explicitly after each value, see scan_column_values
+    make_scan_formats(mScanFormats,false);
     make_print_formats(mPrintFormats);
 
 }
@@ -348,6 +350,7 @@ void Records::scan_column_values(long long fnum, char* input_buff)
 	int type_num = mTypeNums[fnum];
 
 	for (long long el=0; el<mNel[fnum]; el++) {
+        bool delim_read=false;
 		int ret = fscanf(mFptr, mScanFormats[type_num].c_str(), buff);
 		if (ret != 1) {
 			if (feof(mFptr)) {
@@ -363,6 +366,7 @@ void Records::scan_column_values(long long fnum, char* input_buff)
             if (!mReadAsWhitespace) {
                 char c = fgetc(mFptr);
                 if (mDelim[0] == c) {
+                    delim_read=true;
                 
                     // we can store nan for missing data if this is a float column
                     if (   type_num == NPY_FLOAT ||
@@ -388,6 +392,19 @@ void Records::scan_column_values(long long fnum, char* input_buff)
 
 
 		}
+
+        // Read the delimiter (or the end of line) that follows the value.
+        // Blanks padding the value are allowed, but nothing after the
+        // delimiter may be consumed: the next field can be a string that
+        // begins with white space.  For white space delimited files the
+        // caller reads the single delimiter character after the field.
+        if (!mReadAsWhitespace && !delim_read) {
+            int c = fgetc(mFptr);
+            while (c == ' ') {
+                c = fgetc(mFptr);
+            }
+        }
+
         if (!skipping) {
             buff += mSizes[fnum]/mNel[fnum] ;
         }
